@@ -46,7 +46,9 @@ func main() {
 			seed, _ := strconv.Atoi(f[1])
 			n, _ := strconv.Atoi(f[2])
 			depth, _ := strconv.Atoi(f[3])
-			if f[0] == "randlook" {
+			if f[0] == "randlib" {
+				pkgs = gen.RandomLiberal(int64(seed), n, depth)
+			} else if f[0] == "randlook" {
 				pkgs = gen.RandomLookalikes(int64(seed), n, depth)
 			} else {
 				pkgs = gen.Random(int64(seed), n, depth)
